@@ -2677,12 +2677,16 @@ impl KotoVm {
 
         let result = match (&value, index) {
             (List(l), Number(n)) => {
-                let index = self.validate_index(n, Some(l.len()))?;
-                l.data()[index].clone()
+                // Validate and use the index under a single borrow of the list's data,
+                // the list could otherwise be modified in between when it's shared between threads.
+                let data = l.data();
+                let index = self.validate_index(n, Some(data.len()))?;
+                data[index].clone()
             }
             (List(l), Range(range)) => {
-                let indices = range.indices(l.len());
-                List(KList::from_slice(&l.data()[indices]))
+                let data = l.data();
+                let indices = range.indices(data.len());
+                List(KList::from_slice(&data[indices]))
             }
             (Tuple(t), Number(n)) => {
                 let index = self.validate_index(n, Some(t.len()))?;
